@@ -143,3 +143,27 @@ PROPS["C06"] = dict(
                "Bounded: the strip loop itself for all spellings/containers through the real code.",
     level_note="Known finding D15 (forwarding proxy: redirect to the proxy's own host:port keeps credentials) is reported by the bounded contract as KNOWN-FINDING. Fixed: D16.",
 )
+
+_RESP_ASSUME = ["http.client.HTTPResponse.read/read1/_safe_read/close/isclosed, BufferedReader.readline: assumed contracts (exactly-n-bytes-or-IncompleteRead etc.)",
+                "zlib / zstandard decoders: not under contract (their use is covered by the bounded contract only)"]
+PROPS["C12"] = dict(
+    contracts=["connectionpool", "response"], bounded=["c12"], level="other", trusted_base=COMMON_TRUSTED, assumptions=_RESP_ASSUME,
+    not_decided=["the representation invariant of HTTPResponse across arbitrary call histories (decoded buffer + decoder state) is not proved by induction; call sequences are covered up to length 2 (+ final read) by the bounded contract",
+                 "BytesQueueBuffer.get/get_all loop invariants (deque + BytesIO) are not yet under the VC generator; covered by the bounded contract through every read path"],
+    explanation="Two parts. (1) PROVED: the chunk arithmetic of _handle_chunk (returned length = min(amt, chunk_left), remainder kept / CRLF consumed exactly when the chunk is finished, bytes consumed from the wire accounted in a ghost counter), "
+                "_update_chunk_length (a chunk length is known on every normal return; InvalidChunkLength / ProtocolError otherwise) and _raw_read's bookkeeping. (2) BOUNDED: every framing x coding x short call sequence through the real "
+                "pool/http.client/HTTPResponse on an in-memory network: the concatenation of the pieces equals the payload, read(n) <= n, nothing after the end, no empty stream piece.",
+    level_text="Partial proof + bounded stand-in: chunk/length arithmetic discharged deductively; the equivalence of all read APIs is checked on 1.2e4 (quick) framing x coding x call-sequence cases through the real code (complete for sequences <= 2 on the small payloads; not a proof).",
+    level_note="Known finding D13 (mixing http.client's and urllib3's chunk parsers) is reported as KNOWN-FINDING. Fixed: D2, D3. Bounded part labelled bounded.",
+    technique="contract-based deductive verification (VCs from the real AST, z3) for chunk arithmetic + bounded contract check of the read APIs on an in-memory network",
+)
+PROPS["C13"] = dict(
+    contracts=["connectionpool", "response"], bounded=["c13"], level="other", trusted_base=COMMON_TRUSTED, assumptions=_RESP_ASSUME,
+    not_decided=["decoder-level corruption detection is zlib's/zstd's; only the wrapping (DecodeError) and flushing are urllib3's"],
+    explanation="Two parts. (1) PROVED over the real _raw_read with _error_catcher executed inline (the generator's yield runs the with-body): when the stream ends while Content-Length bytes are still owed it never returns normally - for read(n) and (fixed defect D17) read1; "
+                "no raw OSError/ssl/http.client exception escapes (each is translated); on every unclean exit the connection and the original response are closed before the lease is released; _update_chunk_length raises InvalidChunkLength / ProtocolError "
+                "for a non-hex / empty size line; _handle_chunk's byte accounting. (2) BOUNDED: every truncation point x 8 read patterns (+ second request must use a new socket), single-byte corruptions of compressed streams, malformed chunk-size lines.",
+    level_text="Partial proof + bounded stand-in: the error exits of the body readers are discharged deductively (all exception classes of the running hierarchy at the file-object boundary); truncation/corruption sweeps are exhaustive within the stated bounds.",
+    level_note="Known findings D18 (lenient chunk-size lines) and D19 (incomplete zstd frame streamed) are reported as KNOWN-FINDING. Fixed: D17.",
+    technique="contract-based deductive verification (VCs from the real AST incl. the inlined context manager, z3) + bounded truncation/corruption sweeps on an in-memory network",
+)
